@@ -9,7 +9,9 @@ Tie:   the real balancers are driven in-package through generated histories of S
        (least load) are compared with the Coq model evaluated by vm_compute on the same histories.
 Oracle (independent of the model): every Next returns a member of the list in force, no panic;
        consecutive round-robin calls advance by one slot cyclically, the k-th call on a fresh balancer
-       returns nodes[(k-1) mod n]; concurrent goroutines see an exactly even distribution.
+       returns nodes[(k-1) mod n]; concurrent goroutines see an exactly even distribution; while one
+       goroutine keeps replacing the pool (64 <-> 1 nodes) concurrent Next calls never panic and return
+       a node of one of the two pools (all three balancers).
 """
 import json
 import os
@@ -127,7 +129,9 @@ def run(ctx):
     ll = gen_ll_cases(ctx)
     rnd = [{"Kind": "rnd", "Nodes": list(range(n)), "Calls": 400 * n} for n in (1, 2, 3, 5, 8)]
     conc = [{"Kind": "rrconc", "Nodes": list(range(n)), "G": g, "Calls": n * (20000 if ctx.thorough else 4000)} for (n, g) in ((3, 8), (5, 4), (7, 16))]
-    cases = rr + ll + rnd + conc
+    ms = 3000 if ctx.thorough else 600
+    flip = [{"Kind": "flip", "Balancer": bal, "Large": 64, "Small": 1, "Readers": 8, "Millis": ms} for bal in ("rnd", "rr", "ll")]
+    cases = rr + ll + rnd + conc + flip
     with open(os.path.join(ctx.work, "c22_in.jsonl"), "w") as f:
         for c in cases:
             f.write(json.dumps(c) + "\n")
@@ -153,6 +157,7 @@ def run(ctx):
     nontrivial = set()
     hist = {"set": 0, "next": 0, "preset": 0}
     cursor_bits = None
+    flip_runs = []
     for ci, (c, o) in enumerate(zip(cases, outs)):
         if c["Kind"] == "rr":
             cursor_bits = o.get("Bits", 0)
@@ -226,6 +231,18 @@ def run(ctx):
                 viol("RoundRobin.Next:concurrent-distribution", "%d goroutines x %d RoundRobin.Next calls over %d nodes: per-node counts %s, want %d each" % (c["G"], c["Calls"], len(c["Nodes"]), cnt, want),
                      {"balancer": "RoundRobin", "goroutines": c["G"], "calls_each": c["Calls"], "nodes": len(c["Nodes"]), "counts": cnt})
             nontrivial.add(canon_hash(("rrconc", len(c["Nodes"]), c["G"])))
+        elif c["Kind"] == "flip":
+            name = {"rnd": "Random", "rr": "RoundRobin", "ll": "LeastLoad"}[c["Balancer"]]
+            n_next += o.get("Calls", 0)
+            flip_runs.append({"balancer": name, "next_calls": o.get("Calls", 0), "pool_replacements": o.get("Flips", 0), "panics": o.get("Panics", 0)})
+            rep = {"balancer": name, "scenario": "one goroutine alternates Set(%d nodes) / Set(%d node) while %d goroutines call Next for %d ms" % (c["Large"], c["Small"], c["Readers"], c["Millis"]),
+                   "next_calls": o.get("Calls"), "pool_replacements": o.get("Flips"), "first_panic": o.get("FirstPanic"), "hung": o.get("Hung")}
+            if o.get("Panics") or o.get("Hung"):
+                viol("%s.Next:panic-while-pool-replaced" % name, "%s: %s" % (name, o.get("FirstPanic") or o.get("Hung")), rep)
+            elif o.get("Foreign"):
+                viol("%s.Next:not-configured-while-pool-replaced" % name, "%s.Next returned a node of neither configured pool while Set was replacing the pool" % name, rep)
+            if o.get("Calls", 0) > 100 and o.get("Flips", 0) > 100:
+                nontrivial.add(canon_hash(("flip", name)))
 
     # ------------------------------------------------------------ model vs implementation (vm_compute)
     ok_gen, gen_out = ctx.coq_build(["theories/C22/Model.vo"]) if ok else (False, "goq failed")
@@ -330,8 +347,9 @@ Eval vm_compute in summary.
         "samples": [cases[0], rr[len(rr) // 2], ll[1], (outs[0] if outs else None)],
         "op_histogram": hist, "rr_histories": len(rr), "ll_histories": len(ll), "random_calls": sum(c["Calls"] for c in rnd),
         "concurrent_runs": [{"nodes": len(c["Nodes"]), "goroutines": c["G"], "calls_each": c["Calls"]} for c in conc],
+        "pool_replacement_races": flip_runs,
         "cursor_field_bits": cursor_bits, "model_vs_impl": mism,
-        "theorems": ["C22_rr_index_in_range", "C22_rr_kth_call_index", "C22_rr_cyclic_from_any_cursor", "C22_rr_each_slot_once_per_round",
+        "theorems": ["C22_random_history_always_a_configured_node", "C22_rr_index_in_range", "C22_rr_kth_call_index", "C22_rr_cyclic_from_any_cursor", "C22_rr_each_slot_once_per_round",
                      "C22_rr_in_range_under_resizing", "C22_rr_always_a_configured_node", "C22_rr_cyclic_order",
                      "C22_leastload_always_a_configured_node", "C22_leastload_first_minimum", "C22_random_always_a_configured_node"],
     })
@@ -341,7 +359,7 @@ META = {
     "ready": True,
     "category": "proof",
     "technique": "Rocq proof over goq-translated Go source + hand model, differential op-sequence conformance with in-package cursor presets",
-    "text": "Ten theorems: for every uint32 cursor (also stale) and every pool size 1<=n<2^32 the round-robin index and the stored cursor are in [0,n); the k-th call of a fresh balancer uses (k-1) mod n for ALL k; cyclic order from any cursor; each slot once per n calls; in range under resizing; over every history of Set/Next/arbitrary cursor each Next returns a member of the list in force (RoundRobin, LeastLoad incl. minimum weight and stability, Random under the IntN contract). Index and cursor-update expressions are regenerated by goq from client/round_robin.go on every run; real balancers are driven through generated histories with the cursor preset in-package to stale and near-2^32 values and compared step by step (returned node, cursor, node order) with the Coq model; independent oracle incl. a goroutine stress for exact even distribution.",
+    "text": "Eleven theorems: for every uint32 cursor (also stale) and every pool size 1<=n<2^32 the round-robin index and the stored cursor are in [0,n); the k-th call of a fresh balancer uses (k-1) mod n for ALL k; cyclic order from any cursor; each slot once per n calls; in range under resizing; over every history of Set/Next/arbitrary cursor each Next returns a member of the list in force (RoundRobin, LeastLoad incl. minimum weight and stability, Random under the IntN contract). Index and cursor-update expressions are regenerated by goq from client/round_robin.go on every run; real balancers are driven through generated histories with the cursor preset in-package to stale and near-2^32 values and compared step by step (returned node, cursor, node order) with the Coq model; independent oracle incl. a goroutine stress for exact even distribution and, for all three balancers, real goroutines calling Next while another one keeps replacing the pool (64 <-> 1 nodes): no panic, every result in one of the two pools. Lock discipline in the model: Set and Next are each one atomic step under the mutex, so the history theorems cover any number of goroutines; a Next split into two critical sections is refuted in Coq (split_next_leaves_the_pool).",
     "design_ref": "DESIGN.md 7/C22",
     "level_note": "Trusted: Coq kernel, goq (validated differentially each run), rand.IntN range contract, slices.SortStableFunc stability. Weights are assumed constant during one LeastLoad.Next call.",
 }
